@@ -1075,11 +1075,35 @@ namespace fsh
     void put_spacing(G&, std::ostream&, long)
     {
     }
+    // length() and shape() of structured grids
+    template <class G>
+    auto put_length_shape(G& grid, std::ostream& os, int) -> decltype(grid.length(), void())
+    {
+        os << "O length";
+        put_sp(os, grid.length());
+        os << "\nO shape";
+        for (auto v : grid.shape())
+            os << ' ' << static_cast<unsigned long long>(v);
+        os << "\n";
+    }
+    template <class G>
+    void put_length_shape(G&, std::ostream&, long)
+    {
+    }
 
     template <class G>
     void grid_common(G& grid, std::ostream& os)
     {
         put_spacing(grid, os, 0);
+        put_length_shape(grid, os, 0);
+        {
+            // the one-node status accessor against the status array
+            bool same = true;
+            std::size_t k = 0;
+            for (auto st : grid.nodes_status())
+                same = same && st == grid.nodes_status(k++);
+            os << "O status_views_agree " << (same && k == grid.size() ? 1 : 0) << "\n";
+        }
         os << "O size " << grid.size() << "\n";
         os << "O nmax " << static_cast<int>(G::n_neighbors_max()) << "\n";
         os << "O status";
